@@ -1411,17 +1411,34 @@ class PackBasedObjectStore(PackCapableObjectStore, PackedObjectContainer):
                 yield from pack
             except PackFileDisappeared as exc:
                 self._evict_pack(exc.obj)
+            except ValueError:
+                # A lookup made through this store between two yields found
+                # the pack's files gone and closed it under us.  What it held
+                # and still exists is in a pack that is listed below.
+                if any(p is pack for p in self._pack_cache.values()):
+                    raise
         yield from self._iter_loose_objects()
         # Objects packed by a concurrent repack while the loose objects were
-        # being listed are no longer loose: pick up the packs that appeared.
-        self._update_pack_cache()
-        for name, pack in list(self._pack_cache.items()):
-            if name in listed:
-                continue
-            try:
-                yield from pack
-            except PackFileDisappeared as exc:
-                self._evict_pack(exc.obj)
+        # being listed are no longer loose: pick up the packs that appeared,
+        # and those that appear while these are being listed.
+        while True:
+            self._update_pack_cache()
+            pending = [
+                (name, pack)
+                for name, pack in self._pack_cache.items()
+                if name not in listed
+            ]
+            if not pending:
+                break
+            for name, pack in pending:
+                listed.add(name)
+                try:
+                    yield from pack
+                except PackFileDisappeared as exc:
+                    self._evict_pack(exc.obj)
+                except ValueError:
+                    if any(p is pack for p in self._pack_cache.values()):
+                        raise
         yield from self._iter_alternate_objects()
 
     def contains_loose(self, sha: ObjectID) -> bool:
